@@ -835,7 +835,26 @@ func checkRace(c Case) *core.Violation {
 		rounds = 20000
 	}
 	errs := make([]error, k)
+	// a reader of the table (runtime --named-pipes) runs next to the creates
+	// and deletes the whole time
+	var stop int32
+	var dumpBad atomic.Value
+	dumperDone := make(chan struct{})
+	go func() {
+		defer close(dumperDone)
+		for atomic.LoadInt32(&stop) == 0 {
+			for n, typ := range reg.dump() {
+				if !(n == "null" && typ == "null") && !(strings.HasPrefix(n, "race") && typ == "std") {
+					dumpBad.Store(fmt.Sprintf("Dump shows %q of type %q", n, typ))
+				}
+			}
+		}
+	}()
+	defer func() { atomic.StoreInt32(&stop, 1); <-dumperDone }()
 	for r := 0; r < rounds; r++ {
+		if m := dumpBad.Load(); m != nil {
+			return core.Violf("corrupt-registry", "%s", m)
+		}
 		name := fmt.Sprintf("race%d", r)
 		var start, done sync.WaitGroup
 		start.Add(1)
